@@ -93,7 +93,7 @@ func (r *Replica) execOut(op *Op) string {
 			r.InBlock = false
 			out = hex.EncodeToString(resp.Data)
 		case "check":
-			resp := r.App.Core.CheckTx(abcitypes.RequestCheckTx{Tx: unhex(op.Tx), Type: abcitypes.CheckTxType_New})
+			resp := r.App.Core.CheckTx(abcitypes.RequestCheckTx{Tx: unhex(op.Tx), Type: op.checkType()})
 			out = fmt.Sprint(resp.Code)
 		case "query":
 			SetStoreHeight(r.Height)
@@ -241,6 +241,22 @@ func mempoolSessions(base *Scenario, begin, end int, b *Builder, view *View, h i
 					mkv0("un-staking from an absent / accused validator before BeginBlock", map[int][]Op{begin: {un}})
 				}
 			}
+		}
+	}
+	// transactions that stay in the mempool: checked before the block, re-checked (CheckTx of type Recheck, which is what
+	// the mempool sends for every waiting transaction) after the block's commit.  Receivers that do not exist yet.
+	if end+1 < len(base.Ops) {
+		for k, from := range []int{4, 1} {
+			n := uint64(view.Accts[fmt.Sprintf("a%d", from)].Nonce)
+			var bz []byte
+			if k == 0 {
+				bz = b.Sign(newTransfer(kr, from, base.NAccts+7, n, gas, price, "1e15"), from, chain)
+			} else {
+				bz = b.Sign(newProposal(kr, from, n, gas, price, h+3, 3, h+9), from, chain)
+			}
+			first := Op{Kind: "check", Tx: HexTx(bz), Tag: "session:waiting"}
+			again := Op{Kind: "check", Tx: HexTx(bz), Tag: "session:waiting-rechecked", Recheck: true}
+			mkv0([]string{"a waiting transfer to a new address", "a waiting proposal"}[k]+" is re-checked after the commit", map[int][]Op{begin: {first}, end + 1: {again}})
 		}
 	}
 	for i := begin + 1; i < end && i < len(base.Ops); i++ {
@@ -393,6 +409,13 @@ func InjectionPool(base *Scenario, begin int, b *Builder, view *View, h int64, r
 	}
 	mk("garbage", randBytes(rng, 40))
 	pool = append(pool, Op{Kind: "check", Tx: "", Tag: "empty"})
+	// re-checks (type Recheck): of a block transaction, of a transfer to an address that does not exist
+	for i := begin + 1; i < len(base.Ops) && base.Ops[i].Kind == "deliver"; i++ {
+		pool = append(pool, Op{Kind: "check", Tx: base.Ops[i].Tx, Tag: "recheck-of-block-tx", Recheck: true})
+		break
+	}
+	mk("recheck transfer to a new address", b.Sign(newTransfer(kr, 5, base.NAccts+8, nonce(5), gas, price, "1e15"), 5, chain))
+	pool[len(pool)-1].Recheck = true
 	// queries
 	// queries: every path in both tiers (a read-only handler that writes is as likely in one path as in another)
 	qhs := []int64{0, h - 1}
